@@ -267,7 +267,9 @@ def gen_case(r):
         c['target_text'] = json.dumps(t)
     z = r.random()
     if z < 0.06:
-        c['target_text'] = r.choice(['{bad', '[1, 2', '{"a": }', 'nope', "{'a': 1}", '- a\n  b: [', 'a = '])
+        c['target_text'] = r.choice(['{bad', '[1, 2', '{"a": }', 'nope', "{'a': 1}", '- a\n  b: [', 'a = ',
+                                     # well-formed texts that cannot be BUILT: the loaders fail with TypeError / AttributeError, not a syntax error
+                                     '{[1]: 2}', '{"a": {{}}}', '{"a": {[]}}', 'a: !!timestamp nope'])
     elif z < 0.09:
         c['target_text'] = ''
     # sources
@@ -321,6 +323,13 @@ def corpus():
     for i in range(len(HOSTILE)):
         h = gen_hostile(_Fixed(i))
         out.append(h)
+    # well-formed target texts that cannot be BUILT (unhashable dict key / set element in a Python literal, a YAML tag that does not
+    # apply): the loader fails with TypeError / AttributeError rather than a syntax error — still a usage error, from every source
+    for fmt, text in (('python', '{[1]: 2}'), ('python', '{"a": {{}}}'), ('python', '{"a": {[]}}'), ('yaml', 'a: !!timestamp nope')):
+        for src in ('arg', 'file', 'stdin'):
+            c = dict(base)
+            c.update(tfmt=fmt, target_text=text, target_src=src, spec_text='a')
+            out.append(c)
     return out
 
 
